@@ -2,7 +2,7 @@
    starts with '=' for the checksum line; where its four characters are base64 for FEWER than three bytes ("=LwA=")
    it goes on as if the line were not there, and no checksum is compared at all (the r13 finding
    armor-crc-line-malformed).  Since /repo 5d22f1c control.armorChecksumLineOK refuses such a document before the
-   armor reader sees it.  Here: that function (armor_ok), base64 on one quantum of four characters as
+   armor reader sees it (rewritten after the r15 hunt: any such line behind the beginning of the signature).  Here: that function (armor_ok), base64 on one quantum of four characters as
    encoding/base64 decodes it (decode4), the armor reader's three ways with a candidate line (xline), the CRC-24 and
    the checksum line the library WRITES - and the theorems: a line the check lets through is never skipped by the
    reader, a line the reader would skip is refused, the line the library writes for any data is let through. *)
@@ -61,30 +61,35 @@ Definition line_ok (l : str) : bool :=
   end.
 Definition trim_cr (l : str) : str :=
   match rev l with c :: r => if ceq c cr then rev r else l | [] => l end.
-(* the armor headers end at the first empty line; every line behind it is looked at *)
-Fixpoint body_ok (body : bool) (ls : list str) : bool :=
-  match ls with
-  | [] => true
-  | l :: r => if body then line_ok l && body_ok true r
-              else body_ok (match l with [] => true | _ => false end) r
-  end.
 Fixpoint prefix (p x : str) : bool :=
   match p, x with
   | [], _ => true
   | a :: p', b :: x' => ceq a b && prefix p' x'
   | _ :: _, [] => false
   end.
-(* bytes.LastIndex: the part of x from the last occurrence of p on *)
-Fixpoint from_last (p x : str) : option str :=
+(* bytes.HasPrefix(x, p), or else bytes.Index(x, "\n" + p) + 1: the part of x from the first occurrence of p at the
+   beginning of a line on *)
+Fixpoint from_first_line (p x : str) (line_start : bool) : option str :=
   match x with
-  | [] => if prefix p [] then Some [] else None
-  | c :: r => match from_last p r with Some t => Some t | None => if prefix p x then Some x else None end
+  | [] => None
+  | c :: r => if line_start && prefix p x then Some x else from_first_line p r (ceq c nl)
   end.
-Definition begin_marker : str := s "-----BEGIN PGP SIGNATURE-----".
+Definition message_marker : str := s "-----BEGIN PGP SIGNED MESSAGE-----".
+Definition signature_marker : str := s "-----BEGIN PGP SIGNATURE-----".
+Definition skipped (l : str) : bool := match xline l with Skipped => true | _ => false end.
+(* behind the line that begins the signature of the clearsigned message, no line may be one the armor reader skips -
+   wherever that reader takes the headers to end, the body to end or another block to begin (the first version of this
+   function parsed the armor in its own way - headers up to the first EMPTY line, from the LAST marker on - and the r15
+   hunt found the two differences at once: a header end of one blank, a second marker behind the bad line) *)
+Fixpoint sig_ok (insig : bool) (ls : list str) : bool :=
+  match ls with
+  | [] => true
+  | l :: r => if insig then negb (skipped l) && sig_ok true r else sig_ok (prefix signature_marker l) r
+  end.
 Definition armor_ok (armored : str) : bool :=
-  match from_last begin_marker armored with
+  match from_first_line message_marker armored true with
   | None => true
-  | Some t => body_ok false (map trim_cr (split nl t))
+  | Some t => sig_ok false (map trim_cr (split nl t))
   end.
 
 (* ---- what the check is for ---- *)
@@ -103,41 +108,30 @@ Proof.
   unfold line_ok, xline. destruct l as [|e [|a [|b [|c [|d [|x r]]]]]]; try discriminate.
   destruct (ceq e pad); [|discriminate]. destruct (decode4 a b c d) as [[|[|[|[|n]]]]|]; try discriminate; auto.
 Qed.
-(* over a whole body: if the armor is let through, no line of the body is skipped *)
-Lemma body_ok_lines : forall ls, body_ok true ls = true -> forall l, In l ls -> xline l <> Skipped.
+Lemma skipped_iff l : skipped l = true <-> xline l = Skipped.
+Proof. unfold skipped. destruct (xline l); split; congruence. Qed.
+Lemma sig_ok_in_signature : forall ls, sig_ok true ls = true -> forall l, In l ls -> xline l <> Skipped.
 Proof.
-  induction ls as [|l0 r IH]; intros H l Hin; [contradiction|]. cbn [body_ok] in H. apply andb_true_iff in H as [H1 H2].
-  destruct Hin as [<-|Hin]; [now apply let_through_is_never_skipped|now apply IH].
+  induction ls as [|l0 r IH]; intros H l Hin; [contradiction|]. cbn [sig_ok] in H. apply andb_true_iff in H as [H1 H2].
+  destruct Hin as [<-|Hin]; [|now apply IH]. intros X. apply skipped_iff in X. rewrite X in H1. discriminate.
 Qed.
-
-(* the headers: until the first empty line nothing is looked at; behind it, everything *)
-Lemma body_ok_false_split : forall ls, body_ok false ls = true ->
-  (forall l, In l ls -> l <> []) \/ exists pre post, ls = pre ++ [] :: post /\ (forall l, In l pre -> l <> []) /\ body_ok true post = true.
+(* the whole check: in a document that is let through, no line behind the first line that begins the signature is one the
+   armor reader skips *)
+Theorem armor_ok_no_skipped_line armored t : armor_ok armored = true -> from_first_line message_marker armored true = Some t ->
+  forall pre l0 post, map trim_cr (split nl t) = pre ++ l0 :: post -> (forall l, In l pre -> prefix signature_marker l = false) ->
+  prefix signature_marker l0 = true -> forall l, In l post -> xline l <> Skipped.
 Proof.
-  induction ls as [|l r IH]; intros H; [left; intros l []|]. cbn [body_ok] in H. destruct l as [|c l'].
-  - right. exists [], r. repeat split; [intros l []|exact H].
-  - destruct (IH H) as [N|(pre&post&E&N&B)].
-    + left. intros l [<-|Hin]; [discriminate|now apply N].
-    + right. exists ((c :: l') :: pre), post. subst r. repeat split; [|exact B].
-      intros l [<-|Hin]; [discriminate|now apply N].
+  unfold armor_ok. intros H F. rewrite F in H. intros pre l0 post E N P l Hin. rewrite E in H. clear E F.
+  induction pre as [|x pre IH]; cbn [app sig_ok] in H.
+  - rewrite P in H. exact (sig_ok_in_signature post H l Hin).
+  - rewrite (N x (or_introl eq_refl)) in H. apply IH; [exact H|]. intros y Hy. apply N. now right.
 Qed.
-(* the whole check: in an armor that is let through, no line behind the headers of the last signature armor is one
-   the armor reader skips *)
-Theorem armor_ok_no_skipped_line armored t : armor_ok armored = true -> from_last begin_marker armored = Some t ->
-  forall pre post, map trim_cr (split nl t) = pre ++ [] :: post -> (forall l, In l pre -> l <> []) ->
-  forall l, In l post -> xline l <> Skipped.
+(* ... and it refuses nothing else: a document is refused only for a line the reader would skip *)
+Theorem armor_refused_for_a_skipped_line : forall ls, sig_ok true ls = false -> exists l, In l ls /\ xline l = Skipped.
 Proof.
-  unfold armor_ok. intros H F. rewrite F in H. intros pre post E N l Hin.
-  destruct (body_ok_false_split _ H) as [NE|(pre'&post'&E'&N'&B)].
-  - exfalso. apply (NE []); [|reflexivity]. rewrite E. apply in_or_app. right. now left.
-  - (* the first empty line is where both splits cut *)
-    assert (P : forall (a b c d : list str), a ++ [] :: b = c ++ [] :: d -> (forall l, In l a -> l <> []) -> (forall l, In l c -> l <> []) -> b = d).
-    { induction a as [|x a IHa]; intros b c d Eq Na Nc.
-      - destruct c as [|y c]; [now inversion Eq|]. inversion Eq; subst. exfalso. apply (Nc []); [now left|reflexivity].
-      - destruct c as [|y c].
-        + inversion Eq; subst. exfalso. apply (Na []); [now left|reflexivity].
-        + inversion Eq; subst. apply (IHa b c d); auto; intros l0 Hl; [apply Na|apply Nc]; now right. }
-    rewrite E in E'. rewrite (P pre post pre' post' E' N N') in Hin. exact (body_ok_lines post' B l Hin).
+  induction ls as [|l0 r IH]; [discriminate|]. cbn [sig_ok]. destruct (skipped l0) eqn:S; cbn [negb andb].
+  - intros _. exists l0. split; [now left|now apply skipped_iff].
+  - intros H. destruct (IH H) as (l&I&X). exists l. split; [now right|exact X].
 Qed.
 
 (* ---- the line the library writes: CRC-24 (RFC 4880, 6.1) and base64 of its three bytes ---- *)
@@ -195,4 +189,5 @@ Proof. vm_compute. repeat split. Qed.
 Example crc24_empty : crc24 [] = crc24_init. Proof. reflexivity. Qed.
 Print Assumptions let_through_is_never_skipped.
 Print Assumptions armor_ok_no_skipped_line.
+Print Assumptions armor_refused_for_a_skipped_line.
 Print Assumptions written_checksum_line_is_let_through.
